@@ -232,6 +232,8 @@ def install(M):
         "diag": Builtin("np.diag", np_diag),
         "array": Builtin("np.array", np_array),
         "abs": Builtin("np.abs", np_abs),
+        # np.sqrt of a scalar is the correctly rounded IEEE square root, like math.sqrt (arrays: not modelled)
+        "sqrt": Builtin("np.sqrt", lambda I, a, k: M.m_sqrt(I, a, k) if is_numeric(a[0]) else (_ for _ in ()).throw(Unsupported("np.sqrt of a non-scalar"))),
         "max": Builtin("np.max", np_max),
         "zeros": Builtin("np.zeros", np_zeros),
         "eye": Builtin("np.eye", np_eye),
